@@ -19,6 +19,7 @@ Fixpoint dec_ops (n : nat) (l : list Z) : option (list op) :=
       | 6 :: u :: r => option_map (cons (OForget u)) (dec_ops n' r)
       | 7 :: r => option_map (cons OObjDeleting) (dec_ops n' r)
       | 8 :: r => option_map (cons OObjGone) (dec_ops n' r)
+      | 9 :: k :: r => option_map (cons (OIfStatus k)) (dec_ops n' r)
       | _ => None
       end
   end.
@@ -57,13 +58,14 @@ Definition dec_obs (l : list Z) : option (list Z * Z * list (Z * bool * bool) * 
    362: a processed DEL is not forgotten: the uid stays recorded until an ADD for it is answered or its report is saved;
    363: a flush that could read and save the object (present, not being deleted) leaves nothing recorded and every recorded
         uid reported `deleted` *)
-Fixpoint rt_why (fuel : nat) (os : list op) (o : list Z) (dels prev : list Z) : Z :=
+Fixpoint rt_why (fuel : nat) (os : list op) (o : list Z) (dels prev : list Z) (prevd ipam : list Z) : Z :=
   match fuel, os with
   | S f, op0 :: r =>
       match dec_obs o with
       | None => 360
       | Some (p, stt, es, rest) =>
           let dels' := match op0 with ORelease u => u :: dels | _ => dels end in
+          let ipam' := match op0 with OBind u => u :: ipam | OForget u => remz u ipam | _ => ipam end in
           let reported u := existsb (fun e => match e with (u', _, d) => (u' =? u) && d end) es in
           if negb (forallb (fun e => match e with (u, _, d) => negb d || memz u dels' end) es) then 361
           else if negb (forallb (fun u => memz u p || match op0 with OAnswer u' => u =? u' | OFlush _ _ => reported u | _ => false end)
@@ -72,13 +74,17 @@ Fixpoint rt_why (fuel : nat) (os : list op) (o : list Z) (dels prev : list Z) : 
                   | OFlush true true => (stt =? 1) && negb (match prev with [] => true | _ => false end)
                                         && negb ((match p with [] => true | _ => false end) && forallb reported prev)
                   | _ => false end then 363
-          else rt_why f r rest dels' p
+          (* 364: the periodic clean-up keeps a `deleted` report for as long as the cluster IPAM names the uid *)
+          else if match op0 with
+                  | OSync _ _ => negb (forallb (fun u => negb (memz u ipam') || (stt =? 0) || reported u) prevd)
+                  | _ => false end then 364
+          else rt_why f r rest dels' p (map (fun e => match e with (u, _, _) => u end) (filter (fun e => match e with (_, _, d) => d end) es)) ipam'
       end
   | _, _ => 0
   end.
 Definition why_rt (l o : list Z) : Z :=
   match l with
-  | n :: r => match dec_ops (Z.to_nat n) r with Some os => rt_why (S (length os)) os o [] [] | None => 369 end
+  | n :: r => match dec_ops (Z.to_nat n) r with Some os => rt_why (S (length os)) os o [] [] [] [] | None => 369 end
   | [] => 369
   end.
 Definition chk_rt (l o : list Z) : bool := why_rt l o =? 0.
